@@ -713,6 +713,8 @@ def sample_points(symbols, hyps, n, seed=0, witness=None, tries=4000, ranges=Non
                 v = bq + slack + sp.Rational(1, 1000) if op in ('>', '>=') else bq - slack
                 if s.is_positive and v <= 0: ok = False; break
                 if s.is_negative and v >= 0: ok = False; break
+                if s.is_nonnegative and v < 0: ok = False; break
+                if s.is_nonpositive and v > 0: ok = False; break
                 pt[s] = v
             except Exception:
                 ok = False; break
